@@ -31,6 +31,7 @@
 #include "replay_common.h"
 
 #include <optional>
+#include <unistd.h>
 
 using namespace rp;
 using cocls_verif::vsched;
@@ -210,6 +211,7 @@ struct World {
     std::optional<typename G::iterator> iter;
     int helpers_started = 0, helpers_finished = 0;
     std::string consumer_error;
+    bool leaked = false;
     // coro mode
     std::coroutine_handle<> gate_h;
     Cmd cmd;
@@ -506,11 +508,13 @@ struct World {
             poll_futures();
             if (!rep.check(k, project())) bad = true;
         }
-        // ---- tear down; on a divergence bring everything to rest first -----------------------
-        for (int fuel = 0; fuel < 16 && !proms.empty(); fuel++) {
-            int k = proms.begin()->first;
-            resolve(k);
-            if (threaded) continue_consumer();
+        // ---- tear down -------------------------------------------------------------------------
+        if (bad) {
+            // the real objects are in a state the specification does not know: nothing can be torn down
+            // safely (parked coroutines, a possibly blocked thread); the world is leaked
+            if (threaded) sched.uninstall();
+            leaked = true;
+            return;
         }
         if (threaded) {
             bool ok = continue_consumer();
@@ -518,9 +522,10 @@ struct World {
             bool drained = ok && sched.drain();
             sched.uninstall();
             if (!drained) {
-                if (!bad) rep.diverge(sc.steps.size() - 1, "consumer thread blocked at the end of the scenario got=" + project().dump());
-                fflush(stdout);
-                _exit(1);    // cannot unwind: a blocked thread references the world
+                // cannot unwind: a blocked thread references the world
+                rep.diverge(sc.steps.size() - 1, "consumer thread blocked at the end of the scenario got=" + project().dump());
+                leaked = true;
+                return;
             }
             sched.join_all();
         }
@@ -643,11 +648,14 @@ static void run_modes(const Scenario &sc, Reporter &rep) {
         if (rep.failed()) break;
         auto w = std::make_unique<World<G>>();
         w->run(sc, rep, m);
+        if (w->leaked) (void) w.release();
     }
 }
 
 int main() {
     return replay_main(std::cin, [](const Scenario &sc, Reporter &rep) {
+        alarm(60);   // watchdog only: a scenario takes milliseconds; a hang (e.g. a blocking access that is never
+                     // released) kills the replayer inside the scenario, which the driver reports
         if (sc.hdr.at("witharg").as_bool()) run_modes<G1>(sc, rep);
         else run_modes<G0>(sc, rep);
     });
